@@ -6,6 +6,11 @@ import sysfam, qsys
 
 def run(ck):
     quick = ck.tier == "quick"
+    # shrink at queue level ("shrinking loses nothing"): the C02 machinery on the configurations that contain shrink requests -
+    # consumer/producer interleavings inside prepare_read()/shrink() are not reachable from the system-level yield points
+    import C02
+    shr = [c for c in C02.configs(quick) if c["nshrink"] > 0][: (1 if quick else 3)]
+    C02.queue_level(ck, shr, 4 if quick else 40, meta=False)
 
     def extra(rng):
         out = []
